@@ -17,8 +17,12 @@ R17b(e) == e.dup_pings = 0
 \* the pool keeps its capacity (discarded connections are replaced, taken ones free their slot)
 R17c(e) == e.size <= e.max /\ (e.k = "probe" => (e.probe_got = e.max /\ e.size = e.max))
 
-Names == {"R17a", "R17b", "R17c"}
-StateViol(e) == {n \in Names : ~ CASE n = "R17a" -> R17a(e) [] n = "R17b" -> R17b(e) [] n = "R17c" -> R17c(e)}
+\* Connection::take removes the connection from the pool for good: the pool shrinks by one, the
+\* connection is never recycled or handed out again
+R17d(e) == e.taken_reissued = 0 /\ e.take_size_bad = 0 /\ e.taken_recycled = 0
+
+Names == {"R17a", "R17b", "R17c", "R17d"}
+StateViol(e) == {n \in Names : ~ CASE n = "R17a" -> R17a(e) [] n = "R17b" -> R17b(e) [] n = "R17c" -> R17c(e) [] n = "R17d" -> R17d(e)}
 Init == l = 0
 Next ==
   /\ l < Len(Rec)
